@@ -206,7 +206,7 @@ func runC07Read(ctx *core.Ctx, r *core.Rng) {
 		sz = fmts.Medium
 	case x < 40:
 		sz = fmts.Multi
-	case x < 41 && ctx.Tier == "thorough":
+	case x < 41 && ctx.Tier == "thorough" && r.Chance(0.5):
 		sz = fmts.Large // offsets sampled, never enumerated
 	}
 	if r.Chance(0.0006) || ctx.Tier == "thorough" && r.Chance(0.001) {
@@ -229,7 +229,7 @@ func runC07Read(ctx *core.Ctx, r *core.Rng) {
 				}
 			}
 		}
-		nrand := 120
+		nrand := 60
 		if sz == fmts.Huge {
 			nrand = 25
 		}
@@ -246,7 +246,7 @@ func runC07Read(ctx *core.Ctx, r *core.Rng) {
 		}
 		sort.Ints(offs)
 		ctx.Stats.Inc("c07_inputs_large_offsets_sampled")
-	} else if sz != fmts.Medium || (ctx.Tier == "thorough" && r.Chance(0.5)) {
+	} else if sz != fmts.Medium || (ctx.Tier == "thorough" && r.Chance(0.25)) {
 		for k := 0; k <= len(w); k++ {
 			offs = append(offs, k)
 		}
